@@ -43,10 +43,11 @@ const (
 	evFailNext
 	evBump
 	evAdvance // only in "early notice" configurations: the clock reaches the next slot, its tick is still pending
+	evSlow    // only in "slow fetch" configurations: the next fetch inside a tick returns after the next slot has begun
 	numEvents
 )
 
-var eventNames = []string{"tick", "reorg-previous", "reorg-current", "indices-change", "next-fetch-fails", "bump-assignment-version", "clock-reaches-next-slot"}
+var eventNames = []string{"tick", "reorg-previous", "reorg-current", "indices-change", "next-fetch-fails", "bump-assignment-version", "clock-reaches-next-slot", "next-fetch-overruns-the-slot"}
 
 func pathString(p []byte) []string {
 	out := make([]string, len(p))
@@ -66,12 +67,20 @@ type config struct {
 	// (stamped with the new slot, as HandleHeadEvent does) can be processed before the tick of
 	// their slot - the order the handler's select produces when both channels are ready.
 	early bool
+	// slow (not together with early): a fetch made while a tick is processed may return only after
+	// the next slot has begun (the beacon node is slow). The clock is then one slot ahead for the
+	// rest of that tick, and - as operator/slotticker computes the next tick from the clock - the
+	// tick of the overrun slot never happens: the next tick is the one of the slot after it.
+	slow bool
 }
 
 func (c config) String() string {
 	e := ""
 	if c.early {
 		e = " early-notices"
+	}
+	if c.slow {
+		e += " slow-fetches"
 	}
 	return fmt.Sprintf("%s start=%d initFail=%t ticks=%d nonTick<=%d%s", kindNames[c.kind], c.startSlot, c.initFail, c.ticks, c.budget, e)
 }
@@ -192,6 +201,9 @@ func (r *run) enabled(e byte) bool {
 	if e == evAdvance {
 		return r.cfg.early && !r.pending
 	}
+	if e == evSlow {
+		return r.cfg.slow && r.used < r.cfg.budget && !r.w.slowNext
+	}
 	if e == evTick {
 		return !r.cfg.early || r.pending
 	}
@@ -211,6 +223,7 @@ func (r *run) enabled(e byte) bool {
 func (r *run) step(e byte) (*violation, []string) {
 	w := r.w
 	isTick := e == evTick
+	tickSlot := 0
 	ok := true
 	var held map[[2]int]bool
 	switch e {
@@ -225,6 +238,10 @@ func (r *run) step(e byte) (*violation, []string) {
 		}
 		r.pending = false
 		held = r.heldAt(int(s))
+		tickSlot = int(s)
+		w.mu.Lock()
+		w.inTick = true
+		w.mu.Unlock()
 		r.ticker.slot.Store(s)
 		ok = sendOrHang(r.timer, r.ticker.c, time.Time{})
 		r.ticksDone++
@@ -245,18 +262,28 @@ func (r *run) step(e byte) (*violation, []string) {
 		w.mu.Lock()
 		w.version++
 		w.mu.Unlock()
+	case evSlow:
+		w.mu.Lock()
+		w.slowNext = true
+		w.mu.Unlock()
 	}
 	if !isTick && e != evAdvance {
 		r.used++
 	}
-	if !ok || (e != evFailNext && e != evBump && e != evAdvance && !r.barrier()) {
+	if !ok || (e != evFailNext && e != evBump && e != evAdvance && e != evSlow && !r.barrier()) {
 		r.hung = true
 		return &violation{"handler-hung", fmt.Sprintf("handler did not accept / complete %s within %v", eventNames[e], hangAfter)}, nil
 	}
 	if e == evReorgPrev || e == evReorgCur || e == evIndices {
 		r.m.notice(e, int(w.clock.Load()))
 	}
-	return r.m.judge(isTick, int(w.clock.Load()), w.takeLog(), held)
+	if isTick {
+		w.mu.Lock()
+		w.inTick = false
+		w.mu.Unlock()
+		return r.m.judge(true, tickSlot, w.takeLog(), held)
+	}
+	return r.m.judge(false, int(w.clock.Load()), w.takeLog(), held)
 }
 
 func (r *run) flags() string {
@@ -326,6 +353,9 @@ func (r *run) key() string {
 	w := r.w
 	w.mu.Lock()
 	env := fmt.Sprintf("slot=%d used=%d ver=%d vc=%d fail=%t", w.clock.Load(), r.used, w.version, w.vcSet, w.failNext)
+	if w.slowNext {
+		env += " slow-next"
+	}
 	if r.pending {
 		env += " tick-pending"
 	}
@@ -499,7 +529,7 @@ func report(r *ev.Run, c config, path []byte, v *violation) {
 	sig := fmt.Sprintf("%s %s", kindNames[c.kind], v.clause)
 	r.Violate(sig, v.what, "c16-"+kindNames[c.kind], map[string]interface{}{
 		"handler": kindNames[c.kind], "start_slot": c.startSlot, "init_fetch_fails": c.initFail,
-		"ticks": c.ticks, "budget": c.budget, "early_notices": c.early, "events": pathString(path), "path": encodePath(path),
+		"ticks": c.ticks, "budget": c.budget, "early_notices": c.early, "slow_fetches": c.slow, "events": pathString(path), "path": encodePath(path),
 		"slots_per_epoch": slotsPerEpoch, "epochs_per_sync_period": epochsPerPeriod,
 	}, v.clause, "no violation of the C16 clauses")
 }
@@ -589,16 +619,18 @@ func main() {
 		start, budget int
 		early         bool
 		combos        []combo
+		slow          bool
 	}
 	all := []combo{{kindAttester, false}, {kindAttester, true}, {kindProposer, false}, {kindProposer, true}, {kindSync, false}, {kindSync, true}}
 	noFail := []combo{{kindAttester, false}, {kindProposer, false}, {kindSync, false}}
 	plan := []planEntry{
-		{15, 3, false, []combo{{kindAttester, false}, {kindAttester, true}, {kindProposer, false}, {kindSync, false}}},
-		{18, 3, false, []combo{{kindProposer, true}, {kindSync, true}}}, // mid-epoch start, failing initial fetch
-		{15, 2, true, noFail},
+		{15, 3, false, []combo{{kindAttester, false}, {kindAttester, true}, {kindProposer, false}, {kindSync, false}}, false},
+		{18, 3, false, []combo{{kindProposer, true}, {kindSync, true}}, false}, // mid-epoch start, failing initial fetch
+		{15, 2, true, noFail, false},
+		{15, 2, false, noFail, true}, // fetches that overrun their slot
 	}
 	if r.Thorough() {
-		plan = []planEntry{{15, 5, false, all}, {18, 5, false, all}, {15, 4, true, noFail}}
+		plan = []planEntry{{15, 5, false, all, false}, {18, 5, false, all, false}, {15, 4, true, noFail, false}, {15, 4, false, noFail, true}}
 	}
 	if s := os.Getenv("C16_PLAN"); s != "" { // development aid: "start,budget,early;..."
 		plan = nil
@@ -617,7 +649,7 @@ func main() {
 	for _, pe := range plan {
 		for _, cb := range pe.combos {
 			{
-				c := config{kind: cb.kind, startSlot: pe.start, initFail: cb.initFail, ticks: ticks, budget: pe.budget, early: pe.early}
+				c := config{kind: cb.kind, startSlot: pe.start, initFail: cb.initFail, ticks: ticks, budget: pe.budget, early: pe.early, slow: pe.slow}
 				selfCheck(c)
 				t0 := time.Now()
 				st := explore(r, c, outcomes, workers)
@@ -674,6 +706,9 @@ func replay(r *ev.Run) {
 		ticks: int(tr["ticks"].(float64)), budget: int(tr["budget"].(float64))}
 	if e, ok := tr["early_notices"].(bool); ok {
 		c.early = e
+	}
+	if e, ok := tr["slow_fetches"].(bool); ok {
+		c.slow = e
 	}
 	for i, n := range kindNames {
 		if n == tr["handler"].(string) {
